@@ -372,7 +372,7 @@ impl Scenario for Batch {
         json!({
             "registers": case.regs.iter().map(mval::to_replay).collect::<Vec<_>>(),
             "registers_json": case.regs.iter().map(mval::to_json).collect::<Vec<_>>(),
-            "styles": case.styles.iter().map(|s| json!({"ws": s.ws, "escape_non_ascii": s.escape_non_ascii, "escape_slash": s.escape_slash, "upper_hex": s.upper_hex})).collect::<Vec<_>>(),
+            "styles": case.styles.iter().map(mval::style_to_json).collect::<Vec<_>>(),
             "prefill_hex": mval::hex(&case.prefill),
             "prefill_offsets": case.prefill_offsets,
             "capacity_policy": case.policy,
@@ -386,12 +386,7 @@ impl Scenario for Batch {
             .as_array()
             .ok_or("styles")?
             .iter()
-            .map(|s| TextStyle {
-                ws: s["ws"].as_u64().unwrap_or(0) as u8,
-                escape_non_ascii: s["escape_non_ascii"].as_bool().unwrap_or(false),
-                escape_slash: s["escape_slash"].as_bool().unwrap_or(false),
-                upper_hex: s["upper_hex"].as_bool().unwrap_or(false),
-            })
+            .map(mval::style_from_json)
             .collect();
         let mut calls = vec![];
         for c in j["calls"].as_array().ok_or("calls")? {
